@@ -39,9 +39,22 @@ pub fn rng(salt: u64) -> StdRng {
 
 /// Written before a call that may not return; the driver reads it when the watchdog fires.
 pub fn pending(v: &Value) {
-    if let Ok(dir) = std::env::var("DSV_WORK") {
-        let _ = std::fs::write(format!("{dir}/pending.json"), v.to_string());
-    }
+    use std::io::{Seek, SeekFrom};
+    thread_local! { static PEND: std::cell::RefCell<Option<std::fs::File>> = std::cell::RefCell::new(None); }
+    PEND.with(|p| {
+        let mut p = p.borrow_mut();
+        if p.is_none() {
+            if let Ok(dir) = std::env::var("DSV_WORK") {
+                *p = std::fs::File::create(format!("{dir}/pending.json")).ok();
+            }
+        }
+        if let Some(f) = p.as_mut() {
+            let s = v.to_string();
+            let _ = f.seek(SeekFrom::Start(0));
+            let _ = f.write_all(s.as_bytes());
+            let _ = f.set_len(s.len() as u64);
+        }
+    });
 }
 
 pub fn quiet_panics() {
